@@ -144,6 +144,9 @@ func customFunc(n *Node) func(t *sp.Task) {
 		}
 		o := s.Shell.CustomStart(node.Name, inPaths, pkv)
 		s.SleepNS(o.DurNS)
+		if node.Nest > 0 && len(inPaths) > 0 {
+			miniWorkflow("nested_"+node.Name, node.Nest, t.InIP(node.Ins[0].Name).Path(), "ninner").Run()
+		}
 		if o.Fail == simrt.FailExitBefore {
 			s.Fault(o.Fail.String())
 			s.Shell.CustomEnd(o, 1)
@@ -189,6 +192,20 @@ func customFunc(n *Node) func(t *sp.Task) {
 
 func recKey(prod, port, cons, cport string) string {
 	return prod + "." + port + "->" + cons + "." + cport
+}
+
+// miniWorkflow: a second Workflow object in the same program: a source with one
+// file, one shell-command process (two cores when there are at least two slots).
+func miniWorkflow(name string, slots int, inPath string, proc string) *sp.Workflow {
+	iw := sp.NewWorkflow(name, slots)
+	src := components.NewFileSource(iw, proc+"_src", inPath)
+	p := iw.NewProc(proc, "op "+proc+" -i {i:a} -o {o:o0}")
+	p.SetOut("o0", "{i:a}."+proc+".o0")
+	if slots >= 2 {
+		p.CoresPerTask = 2
+	}
+	p.In("a").From(src.Out())
+	return iw
 }
 
 // Build constructs the workflow. Everything here is public scipipe API.
@@ -307,7 +324,18 @@ func Program(w *WF, rt *Runtime) {
 		sp.InitLogError()
 	}
 	wf := Build(w, rt)
+	if w.Parallel {
+		var wg simrt.WaitGroup
+		wg.Add(1)
+		simrt.Go("harness:first-workflow", func() {
+			defer wg.Done()
+			wf.Run()
+		})
+		miniWorkflow("second", 2, "second_in.txt", "second").Run()
+		wg.Wait()
+	}
 	switch {
+	case w.Parallel:
 	case w.RunToNone && w.RunToMode == 1:
 		wf.RunToRegex("^no_such_process_[0-9]+$") // (a typo: selects nothing)
 	case w.RunToNone && w.RunToMode == 2:
